@@ -136,6 +136,10 @@ func e2eValues(ie *entities.InfoElement, small bool) [][]byte {
 			}
 			add(b)
 		}
+		if ie.DataType == entities.String {
+			// a Go string is any byte sequence: bytes that are not UTF-8 travel unchanged too
+			add([]byte{'a', 0xff, 0xc3, 'z', 0x80})
+		}
 		return out
 	case entities.Float32:
 		for _, bits := range []uint32{0, 0x80000000, 0x7f800000, 0xff800000, 0x7fc00000, 0x7f800001, 0x00000001, 0x3f800000, 0x7f7fffff} {
@@ -331,7 +335,7 @@ func e2eCases(tier string, maxMsg int, fullRegistry bool) []e2eCase {
 		if e.ie.Len != entities.VariableLength {
 			continue
 		}
-		for _, n := range []int{maxMsg - 20 - 3 - 1, maxMsg - 20 - 3} { // largest that fits, and one less
+		for _, n := range []int{maxMsg - 20 - 3 - 1, maxMsg - 20 - 3, maxMsg - 20 - 3 + 1, maxMsg - 20 - 3 + 16} { // one less than fits, the largest that fits, one and sixteen too many (must be refused)
 			b := c15pattern(n)
 			if e.ie.DataType == entities.String {
 				for i := range b {
